@@ -23,3 +23,18 @@ chk("C14", "exploration", "A",
     "DESIGN.md §2 C14",
     "~3.7k policy messages (each byte field absent/empty/right/short/long/one byte/different and all pairs, SVN minima at 0..2^32-1, RTMR lists up to 5, allowed-MR_TD lists up to 3, absent sub-policies, nil policy): conversion must fail whenever the statement says so, and every policy that converts is evaluated on 19 quotes (satisfying, missing exactly one field, just below each minimum) against the reference reading of the message; no panic anywhere.",
     "Reference policy semantics shared with C08.")
+chk("C13", "exploration", "A",
+    "bounded exhaustive exploration of pcs.PckCertificateExtensions on certificates whose SGX extension comes from the harness's own DER encoder: boundary value assignments, all 120 sub-extension orders, all transpositions/rotations of the 18 TCB elements, and a malformed menu at every element; exact-equality / mandatory-error oracle",
+    "DESIGN.md §2 C13",
+    "~1.2k certificates: every case carries its own expected value (exact equality with the encoder's input) or a mandatory error; malformations the statement does not make mandatory errors (trailing elements inside a SEQUENCE, a removed element) are judged 'error or still exact'. FMSPC is additionally observed in the TCB-Info URL during real verification for four FMSPC values.",
+    "The DER encoder (harness/world/pki.go) is independent of encoding/asn1's decoder. Doubly wrapped octet strings are excluded from the wrong-length alphabet (tolerated on purpose).")
+chk("C15", "fault_enumeration", "A",
+    "exhaustive fault enumeration: the full product of device behaviours (report/quote request outcome, status, OutLen, buffer content, report data) against a scripted client.Device, plus every provider behaviour and the device fallback path",
+    "DESIGN.md §2 C15",
+    "24k device runs (complete product of the stated alphabets) check that request 1 carries the caller's 64 bytes, request 2 carries the TD report of request 1, success happens exactly when both results are 0, status is 0 and 0 < OutLen <= buffer size and then returns exactly the first OutLen bytes the device wrote, and every other outcome is an error without a crash; provider results are returned verbatim, an unsupported provider makes the device path visibly tried (distinguishable errors for a nonexistent path and a regular file), GetQuote equals parsing GetRawQuote.",
+    "The kernel side of /dev/tdx_guest and configfs is replaced by scripted doubles.")
+chk("C17", "model_checking", "C",
+    "explicit-state breadth-first search over request histories: every transition calls the real rtmr.ExtendDigestClient / ExtendEventLogClient on a fresh model TSM replayed from the initial state; per-transition operation oracle + per-state register invariant; canonical state key",
+    "DESIGN.md §2 C17",
+    "From each of 64 initial TSM states (every subset of pre-bound indices x distractor entries) all histories of depth 2 (quick) / 3 (thorough), and depth 3 / 4 from 7 selected initial states, over a 162-request alphabet: an invalid request must fail with zero client operations; a valid one must cause exactly one digest write of exactly the digest (or SHA-384 of the log) to the entry bound to the index, creating an entry only when none exists; every register equals the reference SHA-384 extend chain in every reached state.",
+    "The configfs-tsm rtmrs subsystem is a model (harness/world/tsm.go); go-configfs-tsm is executed for real on top of it.")
